@@ -1022,19 +1022,19 @@ def run_response(ctx, h, desc, rng, sample=False):
                             "deferred": [(kd, type(v.value).__name__ if kd == "failure" else "code %s" % v.code) for kd, v in ex.fired],
                             "body_bytes": len(ex.body.data), "body_lost": [type(r.value).__name__ for r in ex.body.lost]})
     # ---- every two-piece split of the complete message (each boundary byte alone on one side)
-    if n <= 200:
+    if n <= 170:
         for cut in range(1, n):
             one(ctx, h, desc, rng, n, [raw[:cut], raw[cut:]], rng.choice(DELIVERING), family="two-split")
     # ---- the request is still being transmitted while the response arrives (body producer's Deferred pending,
     #      .called-but-waiting, or fired-and-paused), released before / in the middle / after the loss / never
     if desc["method"] != b"HEAD":
-        for _ in range(14):
+        for _ in range(11):
             k = rng.choice([n, desc["msg_end"], desc["hdr_end"], rng.randrange(n + 1), rng.randrange(n + 1)])
             segs = rng.choice(variants_for(rng, raw[:k]))
             tx = [rng.choice(TX_KINDS), rng.choice(TX_RELEASE), rng.randint(0, max(0, len(segs)))]
             one(ctx, h, desc, rng, k, segs, rng.choice(POLICIES), {"tx": tx}, family="tx")
     # ---- re-entrant calls by the application from inside the call-outs
-    for _ in range(12):
+    for _ in range(10):
         k = rng.choice([n, n, desc["msg_end"], rng.randrange(desc["hdr_end"], n + 1)])
         segs = rng.choice(variants_for(rng, raw[:k]))
         where, action = rng.choice(REENTRY)
@@ -1053,7 +1053,7 @@ def run_response(ctx, h, desc, rng, sample=False):
         one(ctx, h, desc, rng, k, segs, rng.choice(DELIVERING), scn, family="raises")
     # ---- a second request on the same protocol after this response (state left over from the first exchange)
     if desc["malformed"] is None and desc["framing"] != "close" and n == desc["msg_end"] and not desc.get("edge"):
-        for _ in range(10):
+        for _ in range(8):
             d2 = gen_response(rng)
             if len(d2["raw"]) > 3000:
                 continue
@@ -1081,7 +1081,7 @@ def run(ctx):
     assert ref_parse(b"HTTP/1.1 200 OK\r\nX: y\r\n", b"GET")["head"] == "incomplete"
     h = Harness()
     try:
-        for i in ctx.cases(400, 20000):
+        for i in ctx.cases(360, 18000):
             rng = ctx.case_rng(i)
             desc = gen_h11_response(rng) if rng.random() < 0.25 else gen_response(rng)
             run_response(ctx, h, desc, rng, sample=i < 2 * ctx.nshards)
